@@ -12,22 +12,21 @@ import (
 // (object number / entry), chosen arbitrarily per object number before the lookup.
 var vLoadErr [4]bool
 var vLoadCalls int
-var vStm *core.ObjectStream
+var vStmObj *core.Stream
 var vStmErr bool
 
 func vStubUncompressed(r *Reader, objNum int, entry *core.XRefEntry) (core.Object, error) {
+	if objNum == 9 { // the object stream itself (loaded by the real getObjectStream)
+		if vStmErr {
+			return nil, errors.New("stub: object stream unreadable")
+		}
+		return vStmObj, nil
+	}
 	vLoadCalls++
 	if objNum < 0 || objNum > 3 || vLoadErr[objNum] {
 		return nil, errors.New("stub: load failed")
 	}
 	return core.Int(100 + objNum), nil
-}
-
-func vStubObjectStream(r *Reader, objStmNum int) (*core.ObjectStream, error) {
-	if vStmErr || objStmNum != 9 {
-		return nil, errors.New("stub: no such object stream")
-	}
-	return vStm, nil
 }
 
 // H_C04_lookup_step: one lookup from an arbitrary consistent reader state. Because the state is arbitrary
@@ -36,14 +35,17 @@ func vStubObjectStream(r *Reader, objStmNum int) (*core.ObjectStream, error) {
 //
 //symgo:harness prop=C04 kernel=K4-lookup-step noreplay=1
 //symgo:redirect (*github.com/tsawler/tabula/reader.Reader).getUncompressedObject vStubUncompressed
-//symgo:redirect (*github.com/tsawler/tabula/reader.Reader).getObjectStream vStubObjectStream
-//symgo:desc object numbers 0..2; per number: entry present (sym), type in {free,uncompressed,compressed} (enum), in-use (sym), offset/index (compressed: stream 9 or 8, index 0..2 enum), cached (sym, value = loader value: the invariant); loaders cut (functions of the object number; failure symbolic); object stream 9 holds objects (1,2) at indexes (0,1); query q in [-1,3]; counterexamples are re-executed in the engine only (no native adapter for a Reader without a file)
+//symgo:desc object numbers 0..2; per number: entry present (sym), type in {free,uncompressed,compressed} (enum), in-use (sym), offset/index (compressed: stream 9 or 8, index 0..2 enum), cached (sym, value = loader value: the invariant); the file-bound loader getUncompressedObject is cut (a function of the object number; failure symbolic) and also supplies object stream 9, which the real getObjectStream/NewObjectStream/GetObjectByIndex then unpack; stream 9 holds objects (1,2) at indexes (0,1); an arbitrary subset of {object stream 9 already cached} is symbolic; query q in [-1,3]; counterexamples are re-executed in the engine only (no native adapter for a Reader without a file)
 func H_C04_lookup_step() {
 	r := &Reader{objCache: map[int]core.Object{}, objStmCache: map[int]*core.ObjectStream{}}
 	r.xrefTable = core.NewXRefTable()
-	st := &core.Stream{Dict: core.Dict{"Type": core.Name("ObjStm"), "N": core.Int(2), "First": core.Int(8)}, Data: []byte("1 0 2 3 51 52 ")}
-	vStm, _ = core.NewObjectStream(st)
+	vStmObj = &core.Stream{Dict: core.Dict{"Type": core.Name("ObjStm"), "N": core.Int(2), "First": core.Int(8)}, Data: []byte("1 0 2 3 51 52 ")}
 	vStmErr = vAnyBool()
+	r.xrefTable.Set(9, &core.XRefEntry{Type: core.XRefEntryUncompressed, InUse: true, Offset: 900})
+	if !vStmErr && vAnyBool() { // the object stream may already be in the stream cache
+		os, _ := core.NewObjectStream(vStmObj)
+		r.objStmCache[9] = os
+	}
 	vLoadCalls = 0
 	type stt struct {
 		present, inUse, cached bool
@@ -131,7 +133,6 @@ func H_C04_lookup_step() {
 //
 //symgo:harness prop=C04 kernel=K4-clear-cache noreplay=1
 //symgo:redirect (*github.com/tsawler/tabula/reader.Reader).getUncompressedObject vStubUncompressed
-//symgo:redirect (*github.com/tsawler/tabula/reader.Reader).getObjectStream vStubObjectStream
 //symgo:desc two uncompressed objects 0..1 with symbolic loader failures; sequence: lookup a, ClearCache, lookup b, lookup a (a, b symbolic in 0..1): results equal the per-number loader values and the cache is empty right after ClearCache
 func H_C04_clear_cache() {
 	r := &Reader{objCache: map[int]core.Object{}, objStmCache: map[int]*core.ObjectStream{}}
